@@ -539,7 +539,18 @@ class VirtRig:
                 if self.progress:
                     labtech.lab.tqdm = _rec_tqdm(self)
                 try:
-                    res = lab.run_tasks(req, bust_cache=cfg['bust'], disable_progress=not self.progress, disable_top=True)
+                    kw = dict(bust_cache=cfg['bust'], disable_progress=not self.progress, disable_top=True)
+                    if len(req) == 1 and self.shape_seed % 2 == 0:
+                        # Lab.run_task: the single-task front end (a task that failed under continue_on_failure has no
+                        # entry to return: run_task then raises KeyError(task), which is the empty dict of run_tasks)
+                        try:
+                            res = {req[0]: lab.run_task(req[0], **kw)}
+                        except KeyError as ex:
+                            if not (ex.args and ex.args[0] is req[0]):
+                                raise
+                            res = {}
+                    else:
+                        res = lab.run_tasks(req, **kw)
                 finally:
                     labtech.lab.tqdm = saved_tqdm
                     signal.setitimer(signal.ITIMER_REAL, 0)
